@@ -48,3 +48,12 @@ func (u *eventDispatcher) addHandler(f func()) {
 	u.cond.Signal()
 	u.cond.L.Unlock()
 }
+
+// wake makes dispatchLoop re-check its context. The broadcast is sent with the lock held:
+// a dispatcher that has checked the context but not yet called cond.Wait would otherwise miss it
+// and stay parked forever.
+func (u *eventDispatcher) wake() {
+	u.cond.L.Lock()
+	u.cond.Broadcast()
+	u.cond.L.Unlock()
+}
